@@ -160,11 +160,11 @@ namespace Pistache::Http::Header
                         }
 
                         char* end;
-                        const char* beg = cursor.offset();
-                        // @Security: if str is not \0 terminated, there might be a situation
-                        // where strtol can overflow. Double-check that it's harmless and fix
-                        // if not
-                        auto secs = strtol(beg, &end, 10);
+                        // str is not \0 terminated: parse a bounded copy so that strtol
+                        // can not read past the header value
+                        const std::string rest(cursor.offset(), cursor.remaining());
+                        const char* beg = rest.c_str();
+                        auto secs       = strtol(beg, &end, 10);
                         cursor.advance(end - beg);
                         if (!cursor.eof() && cursor.current() != ',')
                         {
